@@ -306,6 +306,7 @@ func coqCase(id int, in input, delta int64, steps []step) string {
 var twoKindsFail = flag.Bool("two-kinds-as-failure", false, "report the per-kind spacing of the two-kinds reconciler queue as an oracle failure (key C13/queue/reconciler/two-kinds-spacing)")
 
 var replayRealTime bool
+var secTime = map[string]float64{}
 
 func main() {
 	o := hx.Parse()
@@ -428,6 +429,7 @@ func main() {
 	for _, qin := range qinputs {
 		var r *qrun
 		var rr *rrun
+		t0case := time.Now()
 		if qin.Reconciler {
 			rr = runReconciler(qin)
 			r = rr.qrun
@@ -436,6 +438,7 @@ func main() {
 		} else {
 			r = runQueue(qin)
 		}
+		secTime[map[bool]string{true: "reconciler", false: "queue"}[qin.Reconciler]+map[bool]string{true: "+wrapper", false: ""}[qin.Wrapper]] += time.Since(t0case).Seconds()
 		md := maxDur(qin)
 		nontrivial := len(r.runs) >= 2
 		res.Seen(fmt.Sprint(qin), nontrivial)
@@ -524,6 +527,7 @@ func main() {
 	}
 	cw.Flush()
 	res.Extra["bracket_retries"] = bracketRetries
+	res.Extra["seconds_in_virtual_time_cases"] = secTime
 	res.Extra["bracket_give_ups"] = bracketGiveUps
 	res.Extra["two_kinds_cases_with_short_callbacks"] = twoKindsRuns
 	res.Extra["two_kinds_cases_with_same_kind_spacing_below_interval"] = twoKindsShort
